@@ -1362,3 +1362,33 @@ func (c *Ctx) nearPos(in ssa.Instruction) string {
 	}
 	return "the loop header"
 }
+
+// feasibleEdges: an edge filter that prunes error edges and branch edges whose literal contradicts
+// every way of reaching the branch (full path conditions, not only the common literals): after
+// `for cur != ':' && cur != '{' {…}` the "neither" edge of `if cur == ':' {…} else if cur == '{' {…}`
+// cannot be taken.
+func (c *Ctx) feasibleEdges(fn *ssa.Function) func(*ssa.BasicBlock, int) bool {
+	pc := c.PC(fn)
+	return func(b *ssa.BasicBlock, succ int) bool {
+		if !notErrorEdge(b, succ) {
+			return false
+		}
+		if succ >= len(b.Succs) {
+			return true
+		}
+		lit := pc.edgeLit(b, b.Succs[succ])
+		if lit == "" {
+			return true
+		}
+		d := pc.At(b)
+		if d.unknown || len(d.cs) == 0 {
+			return true
+		}
+		for _, cj := range d.cs {
+			if _, ok := conjAdd(cj, lit); ok {
+				return true
+			}
+		}
+		return false
+	}
+}
